@@ -41,7 +41,31 @@ pub struct C09Scn {
 	pub max_disconnects: u32,
 }
 
+/// World in which no channel exists yet: the scenario's first operation opens one.
+fn build_open_flow(s: &C09Scn) -> WorldSys {
+	let mut w = World::new((0..s.nodes).map(|_| user_config(s.ct)).collect(), 253);
+	for i in s.async_from_start.iter() {
+		w.nodes[*i].persist.set_async_all(true);
+	}
+	w.connect(0, 1);
+	let mut sys = WorldSys::new(w, Vec::new(), s.ops.clone());
+	sys.ops_first = s.ops_first;
+	sys.dev = s.dev.clone();
+	sys.max_disconnects = s.max_disconnects;
+	sys.crash_nodes = (0..s.nodes).collect(); // nodes whose completions may be held
+	for i in s.async_from_start.iter() {
+		sys.async_on[*i] = true;
+	}
+	sys.oracles.push(Box::new(crate::oracles::OpenPersistOracle::default()));
+	sys.oracles.push(Box::new(NoErrorOracle { allow_coop: false, allow_force_by_user: false, allow_unfunded_drop: true, ..Default::default() }));
+	sys.w.obs_cursor = sys.w.obs.len();
+	sys
+}
+
 pub fn build(s: &C09Scn) -> WorldSys {
+	if s.ops.iter().any(|o| matches!(o, Op::Open { .. })) {
+		return build_open_flow(s);
+	}
 	let (w, chans) = line_world(s.ct, s.nodes, &s.async_from_start);
 	let infos = chan_infos(&w, &chans);
 	let mut po = PersistOrderOracle::new(&w, infos.clone());
@@ -100,6 +124,31 @@ pub fn scenarios(tier: Tier) -> Vec<C09Scn> {
 			k: if th { 1 } else { 0 },
 			async_from_start: vec![0, 1],
 			max_disconnects: 0,
+		});
+		// the opening flow itself: either side's initial monitor write slow (never completing until the
+		// end), the connection dropping anywhere, the funding confirming at any point
+		v.push(C09Scn {
+			name: format!("{}-ab-open-flow", n),
+			ct,
+			nodes: 2,
+			ops: vec![
+				Op::Open { from: 0, to: 1 },
+				Op::ConfirmFunding,
+				Op::Send { from: 0, hops: vec![(1, 0)], amount_msat: 50_000_000, policy: ClaimPolicy::Claim },
+			],
+			ops_first: false,
+			dev: Deviations {
+				reorder: Some(1),
+				early_op: Some(1),
+				disconnect: Some(1),
+				hold_completions: Some(1),
+				complete_reorder: None,
+				early_release: None,
+				..Deviations::default()
+			},
+			k: if th { 4 } else { 3 },
+			async_from_start: vec![0, 1],
+			max_disconnects: 1,
 		});
 		// forwarding node async from the start: upstream claim must wait for the preimage update
 		v.push(C09Scn {
